@@ -21,7 +21,7 @@ RULE = ('Model-based histories over 1..3 filterbank objects: Hypothesis draws (n
 ASSUMPTIONS = ['chunks are whole multiples of num_taps*num_branches samples (the property\'s admissible sizes)',
                'reference DFT by explicit matrix product in complex128', 'comparison tolerance 1e-10 relative to the largest reference magnitude']
 REQUIRED_CLASSES = ['dtype=real', 'dtype=complex', 'dtype=int', 'chunks>=2', 'objects>=2', 'uncached_interleaved',
-                    'odd_branches', 'enumerated']
+                    'odd_branches', 'enumerated', 'long_call']
 
 WINDOWS = ['hamming', 'hann', 'boxcar', 'blackman']
 
@@ -39,6 +39,8 @@ def strategy(tier):
         'nobj': st.integers(1, 3),
         'feeds': st.lists(feed, min_size=1, max_size=8),
         'lin': st.tuples(gen.finite(-3, 3), gen.finite(-3, 3)),
+        # occasionally one long one-shot call (thousands of spectra, as the recording backend issues)
+        'big': st.one_of(st.none(), st.none(), st.none(), st.integers(40, 900)),
     }).map(_fixup)
 
 
@@ -93,6 +95,22 @@ def reference(x, h, T, B):
         seg = xc[n * B:n * B + T * B].reshape(T, B)
         out[n] = F @ (seg * hp).sum(axis=0)
     return out
+
+
+def reference_fast(x, h, T, B):
+    """Same definition, vectorised with a sliding window (checked against reference() per case)."""
+    x = np.asarray(x).astype(complex)
+    W = len(x) // (T * B)
+    rows = max(0, (W - 1) * T)
+    if rows == 0:
+        return np.zeros((0, B // 2), dtype=complex)
+    xb = x[:W * T * B].reshape(W * T, B)
+    win = np.lib.stride_tricks.sliding_window_view(xb, T, axis=0)[:rows]      # (rows, B, T)
+    s = np.einsum('nbt,tb->nb', win, np.asarray(h, dtype=float).reshape(T, B))
+    k = np.arange(B // 2)[:, None]
+    b = np.arange(B)[None, :]
+    F = np.exp(-2j * np.pi * k * b / B) / np.sqrt(B)
+    return s @ F.T
 
 
 def close(a, b, scale=None):
@@ -181,6 +199,23 @@ def run_case(case, ctx):
         if saw_uncached_between and max(chunks) >= 1:
             obs.cls('uncached_interleaved')
         obs.nontrivial = max(chunks) >= 2 or dtype == 'complex'
+
+        big = case.get('big')
+        if big:
+            wb = max(2, int(big) // max(1, T // 2))
+            xb = make_input(wb * T * B, dtype, rs)
+            small = xb[:3 * T * B]
+            good, why = close(reference_fast(small, h, T, B), reference(small, h, T, B))
+            if not good:
+                raise core.HarnessError('reference_fast disagrees with reference: ' + why)
+            fresh = P.PolyphaseFilterbank(num_taps=T, num_branches=B, window_fn=win)
+            ok, got = core.call(obs, 'channelize_big', fresh.channelize, xb.copy(), cache=False)
+            if ok:
+                want = reference_fast(xb, h, T, B)
+                good, why = close(got, want)
+                if not good:
+                    obs.fail(f'oneshot_long:{dtype}', why + f' rows={len(want)}')
+                obs.cls('long_call' if len(want) > 1024 else 'medium_call')
 
         # algebraic facets on a fresh object: linearity, Re/Im decomposition, free function
         n = 3 * T * B
